@@ -96,6 +96,8 @@ def readme():
         sig = next((s_.replace("signature: ", "") for v in det.values() for s_ in v.get("signatures", ())), "")
         exits = [v["exit"] for v in det.values()]
         verdict = "caught" if 1 in exits else ("harness-error" if any(e not in (0, 1) for e in exits) else "missed")
+        if m.get("out_of_scope") and verdict == "missed":
+            verdict = "not claimed (outside the property as stated, see meta.json)"
         rows.append((sid, m["property"], wave_of(sid), "yes" if m.get("valid") else "NO", verdict, m.get("first_verdict", "") if wave_of(sid) >= 4 else "", sig))
     o = ["# Seeded property-breaking changes", "",
          "Each directory holds `patch.diff` (the change to byuccl/spydrnet), `demo.py` (exits 1 with the change, 0 without),",
